@@ -98,9 +98,11 @@ fn ch_lines(lno: u64, addrs: &[u16]) -> Vec<u8> { let mut b = vec![2u8]; b.exten
 fn ch_src(s: &[u8]) -> Vec<u8> { let mut b = vec![3u8]; b.extend((s.len() as u64).to_le_bytes()); b.extend(s); b }
 fn ch_rel(addr: u16, name: &[u8]) -> Vec<u8> { let mut b = vec![4u8]; b.extend(addr.to_le_bytes()); b.extend((name.len() as u64).to_le_bytes()); b.extend(name); b }
 
+/// the very large inputs are left to the native and ASan runs: under Miri a single one takes minutes
+fn under_interpreter() -> bool { std::env::var("LC3MON_STAGE").map(|s| s == "miri").unwrap_or(false) }
 fn rand_name(rng: &mut Rng) -> Vec<u8> {
     // now and then a name longer than 65535 bytes (text-format column widths, 16-bit length fields)
-    if rng.chance(1, 300) { let n = *rng.pick(&[65_535usize, 65_536, 70_000]); let mut v = vec![b'L'; n]; v[1] = b'0' + rng.below(10) as u8; return v; }
+    if rng.chance(1, 300) && !under_interpreter() { let n = *rng.pick(&[65_535usize, 65_536, 70_000]); let mut v = vec![b'L'; n]; v[1] = b'0' + rng.below(10) as u8; return v; }
     match rng.below(8) { 0 => b"PARTNER".to_vec(), 1 => b"SOMEWHERE".to_vec(), 2 => b"".to_vec(), 3 => vec![0xff, 0xfe], 4 => "é🦀".as_bytes().to_vec(), 5 => b"A | B".to_vec(), 6 => b"X".to_vec(), _ => gen_label_name(rng).to_uppercase().into_bytes() }
 }
 fn rand_addr(rng: &mut Rng) -> u16 { match rng.below(6) { 0 => 0, 1 => 0xFFFF, 2 => 0xFE00, 3 => 0x3000, 4 => 0x6000, _ => rng.u16() } }
@@ -178,7 +180,7 @@ fn mutate_text(rng: &mut Rng, src: &str) -> String {
 
 fn built_text(rng: &mut Rng) -> String {
     // now and then a debug line table with a very long run of rows that carry an address (more than a 16-bit count can hold)
-    if rng.chance(1, 3000) {
+    if rng.chance(1, 3000) && !under_interpreter() {
         let rows = *rng.pick(&[65_535usize, 65_536, 65_537, 70_000]);
         let mut s = String::with_capacity(rows * 22 + 200);
         s.push_str("LC-3 OBJ FILE\n\n.TEXT\n3000\n1\n1021\n\n.DEBUG\n# c\n====================\nLINE | ADDR | SOURCE\n");
